@@ -40,13 +40,21 @@ Definition push_str (ix : indexer) (s : str) : N * indexer :=
       (i, mk_ix ((s, i) :: ix_cur ix) (ix_acc ix ++ [s]))
   end.
 
+(** ** Literal types (`LiteralType`): only `String` literals carry an index *)
+Inductive lit_ty := TString | TBool | TSigned | TUnsigned | TFloat.
+Definition lit_ty_eqb (a b : lit_ty) : bool :=
+  match a, b with
+  | TString, TString | TBool, TBool | TSigned, TSigned | TUnsigned, TUnsigned | TFloat, TFloat => true
+  | _, _ => false
+  end.
+
 (** ** ParsedValue after reduce() *)
 Inductive pv :=
 | PDefault                        (* ParsedValue::Default *)
 | PForeign                        (* ForeignKey (none is left after reduce) *)
 | PVar                            (* Variable *)
 | PSubV                           (* Subkeys seen in value position *)
-| PLitOther                       (* Literal::{Signed,Unsigned,Float,Bool} *)
+| PLitOther (t : lit_ty)          (* Literal::{Signed,Unsigned,Float,Bool}: `Literal::index_strings` does nothing *)
 | PLit (s : str) (idx : N)        (* Literal::String(s, idx) *)
 | PRanges (vs : pvs)              (* the values of the range table, in order *)
 | PComp (inner : pv)              (* Component { inner } *)
@@ -64,7 +72,7 @@ Fixpoint index_pv (v : pv) (ix : indexer) {struct v} : pv * indexer :=
       let (o', ix2) := index_pv o ix1 in
       (PPlurals fs' o', ix2)
   | PBloc vs => let (vs', ix') := index_pvs vs ix in (PBloc vs', ix')
-  | PDefault | PForeign | PVar | PSubV | PLitOther => (v, ix)
+  | PDefault | PForeign | PVar | PSubV | PLitOther _ => (v, ix)
   end
 with index_pvs (vs : pvs) (ix : indexer) {struct vs} : pvs * indexer :=
   match vs with
@@ -95,6 +103,137 @@ with index_entry (e : entry) (ix : indexer) {struct e} : entry * indexer :=
   match e with
   | EVal v => let (v', ix') := index_pv v ix in (EVal v', ix')
   | ESub c n g => let (g', ix') := index_group g ix in (ESub c n g', ix')
+  end.
+
+(** ** The same walk with the state the code keeps per key while it merges the locales one after the other:
+    `LocaleValue::Value { value: InterpolOrLit, .. }` — `Lit(type)` as long as every locale seen so far gives a
+    literal of that type (the accessor is then a constant), `Interpol(..)` otherwise (a builder).  This state is
+    set by the default locale (`make_locale_value` / `get_keys`) and updated by every other locale in
+    configuration order (`ParsedValue::merge`).  Indexing must not depend on it. *)
+Inductive ivalue := ILit (t : lit_ty) | IInterpol.
+Inductive ientry := IEVal (iv : ivalue) | IESub (ik : ikeys)
+with ikeys := IKNil | IKCons (k : str) (e : ientry) (r : ikeys).
+
+Definition lit_ty_of (v : pv) : option lit_ty :=
+  match v with PLit _ _ => Some TString | PLitOther t => Some t | _ => None end.
+
+(** default locale, `make_locale_value`: `this.index_strings(strings); this.get_keys(..)` *)
+Definition builder_value (v : pv) (ix : indexer) : pv * ivalue * indexer :=
+  let (v', ix') := index_pv v ix in
+  (v', match lit_ty_of v with Some t => ILit t | None => IInterpol end, ix').
+
+(** other locales, `ParsedValue::merge` on `LocaleValue::Value`:
+    - `(Default, Value)`: `defaults.push(..)`, nothing else;
+    - `(Literal(lit), Value { value })`: `lit.index_strings(strings)` FIRST, then: a builder stays a builder, a literal
+      of the same type stays that literal, a literal of another type makes a builder with 0 fields;
+    - `(Bloc | Component | Ranges | Variable | Plurals | ForeignKey, Value)`: `self.index_strings(strings)`, then
+      `get_keys_inner` registers a variable / component / count: a builder. *)
+Definition merge_value (v : pv) (iv : ivalue) (ix : indexer) : pv * ivalue * indexer :=
+  match v with
+  | PDefault => (v, iv, ix)
+  | PLit _ _ | PLitOther _ =>
+      let (v', ix') := index_pv v ix in
+      match iv, lit_ty_of v with
+      | ILit t, Some t' => if lit_ty_eqb t' t then (v', ILit t, ix') else (v', IInterpol, ix')
+      | _, _ => (v', IInterpol, ix')
+      end
+  | _ => let (v', ix') := index_pv v ix in (v', IInterpol, ix')
+  end.
+
+(** `Locale::make_builder_keys` (default locale).  `None` = `Err(ExplicitDefaultInDefault)` *)
+Fixpoint builder_group (g : group) (ix : indexer) {struct g} : option (group * ikeys * indexer) :=
+  match g with
+  | GNil => Some (GNil, IKNil, ix)
+  | GCons k e r =>
+      match builder_entry e ix with
+      | None => None
+      | Some (e', ie, ix1) =>
+          match builder_group r ix1 with
+          | None => None
+          | Some (r', ir, ix2) => Some (GCons k e' r', IKCons k ie ir, ix2)
+          end
+      end
+  end
+with builder_entry (e : entry) (ix : indexer) {struct e} : option (entry * ientry * indexer) :=
+  match e with
+  | EVal PDefault => None
+  | EVal v => let '(v', iv, ix') := builder_value v ix in Some (EVal v', IEVal iv, ix')
+  | ESub c n g =>
+      match builder_group g ix with
+      | None => None
+      | Some (g', ik, ix') => Some (ESub c n g', IESub ik, ix')
+      end
+  end.
+
+(** `Locale::merge` over the keys of the generated code (`keys.0`), the locale's values aligned with them.
+    `None` = `Err(SubKeyMissmatch)` (a value where the default locale has subkeys, or the reverse). *)
+Fixpoint merge_group (g : group) (ik : ikeys) (ix : indexer) {struct g} : option (group * ikeys * indexer) :=
+  match g, ik with
+  | GNil, IKNil => Some (GNil, IKNil, ix)
+  | GCons k e r, IKCons _ ie ir =>
+      match merge_entry e ie ix with
+      | None => None
+      | Some (e', ie', ix1) =>
+          match merge_group r ir ix1 with
+          | None => None
+          | Some (r', ir', ix2) => Some (GCons k e' r', IKCons k ie' ir', ix2)
+          end
+      end
+  | _, _ => None
+  end
+with merge_entry (e : entry) (ie : ientry) (ix : indexer) {struct e} : option (entry * ientry * indexer) :=
+  match e, ie with
+  | EVal v, IEVal iv => let '(v', iv', ix') := merge_value v iv ix in Some (EVal v', IEVal iv', ix')
+  | ESub c n g, IESub ik =>
+      match merge_group g ik ix with
+      | None => None
+      | Some (g', ik', ix') => Some (ESub c n g', IESub ik', ix')
+      end
+  | _, _ => None
+  end.
+
+(** `check_locales_inner`: the default locale, then every other locale in configuration order, each with its own
+    indexer; returns the per-locale trees / tables and the final state of the keys *)
+Fixpoint merge_locales (gs : list group) (ik : ikeys) : option (list (group * list str) * ikeys) :=
+  match gs with
+  | [] => Some ([], ik)
+  | g :: rest =>
+      match merge_group g ik ix_empty with
+      | None => None
+      | Some (g', ik', ix) =>
+          match merge_locales rest ik' with
+          | None => None
+          | Some (outs, ikf) => Some ((g', ix_acc ix) :: outs, ikf)
+          end
+      end
+  end.
+Definition check_locales (gs : list group) : option (list (group * list str) * ikeys) :=
+  match gs with
+  | [] => None
+  | d :: rest =>
+      match builder_group d ix_empty with
+      | None => None
+      | Some (d', ik, ix) =>
+          match merge_locales rest ik with
+          | None => None
+          | Some (outs, ikf) => Some ((d', ix_acc ix) :: outs, ikf)
+          end
+      end
+  end.
+
+Fixpoint ivalue_eqb (a b : ivalue) : bool :=
+  match a, b with ILit t, ILit u => lit_ty_eqb t u | IInterpol, IInterpol => true | _, _ => false end.
+Fixpoint ikeys_eqb (a b : ikeys) {struct a} : bool :=
+  match a, b with
+  | IKNil, IKNil => true
+  | IKCons k e r, IKCons k' e' r' => str_eqb k k' && ientry_eqb e e' && ikeys_eqb r r'
+  | _, _ => false
+  end
+with ientry_eqb (a b : ientry) {struct a} : bool :=
+  match a, b with
+  | IEVal x, IEVal y => ivalue_eqb x y
+  | IESub x, IESub y => ikeys_eqb x y
+  | _, _ => false
   end.
 
 (** ** propagate_string_count: every nested Locale of top locale number li receives the
@@ -177,7 +316,7 @@ Fixpoint lits_ok_pv (table : list str) (n : N) (v : pv) {struct v} : bool :=
   | PComp inner => lits_ok_pv table n inner
   | PPlurals fs o => lits_ok_pvs table n fs && lits_ok_pv table n o
   | PBloc vs => lits_ok_pvs table n vs
-  | PDefault | PForeign | PVar | PSubV | PLitOther => true
+  | PDefault | PForeign | PVar | PSubV | PLitOther _ => true
   end
 with lits_ok_pvs (table : list str) (n : N) (vs : pvs) {struct vs} : bool :=
   match vs with
@@ -231,7 +370,8 @@ with nloc_ok_e (nloc : N) (e : entry) {struct e} : bool :=
 (** ** Equality of trees (for the correspondence check) *)
 Fixpoint pv_eqb (a b : pv) {struct a} : bool :=
   match a, b with
-  | PDefault, PDefault | PForeign, PForeign | PVar, PVar | PSubV, PSubV | PLitOther, PLitOther => true
+  | PDefault, PDefault | PForeign, PForeign | PVar, PVar | PSubV, PSubV => true
+  | PLitOther t, PLitOther u => lit_ty_eqb t u
   | PLit s i, PLit t j => str_eqb s t && (i =? j)
   | PRanges x, PRanges y => pvs_eqb x y
   | PComp x, PComp y => pv_eqb x y
